@@ -100,6 +100,12 @@ Query ==
     \* mid-stream while the handler is blocked reading
     Sc("q-mid-stream", pre \o << s3, GVq, s3, s0 >>, << <<>> >>, << G(Len_(pre \o << s3, GVq >>), "reply", 1) >>, TRUE, << ReadAllRet >>, << Propagate >>),
     Sc("q-mid-stream-uk", pre \o << s3, UKq, s0 >>, << <<>> >>, << G(Len_(pre \o << s3, UKq >>), "reply", 1) >>, TRUE, << EchoProg >>, << Propagate >>),
+    \* handler that stops in the middle of a record: close() must work off what is already buffered (the rest of the
+    \* record and the query behind it) before it waits for more input
+    Sc("q-part-record", pre \o << IStream(TStdin, Own, 5, 0), GVq, s0 >> \o next, << <<>>, <<>> >>,
+       << G(Len_(pre \o << IStream(TStdin, Own, 5, 0), GVq >>), "reply", 1) >>, TRUE, << << OpRead(2), OpRet(StOk("0")) >>, ReadAllRet >>, << Propagate, Propagate >>),
+    Sc("q-part-record-uk", pre \o << IStream(TStdin, Own, 9, 3), UKq >> \o next, << <<>>, <<>> >>,
+       << G(Len_(pre \o << IStream(TStdin, Own, 9, 3), UKq >>), "reply", 1) >>, TRUE, << PartProg, ReadAllRet >>, << Propagate, Propagate >>),
     \* handler that does not read: the query travels in the leftover
     Sc("q-unread", pre \o << GVq, s0 >> \o next, << <<>>, <<>> >>, << G(Len_(pre \o << GVq, s0 >>), "reply", 1) >>, TRUE, << LazyProg, ReadAllRet >>, << Propagate, Propagate >>)
   }
